@@ -305,11 +305,17 @@ func topFrame(stack []byte) (fn, where string) {
 			continue
 		}
 		if after && strings.HasPrefix(l, "github.com/gauss-project/aurorafs/pkg/") {
-			fn = frameName(l)
-			if i+1 < len(lines) {
-				where = frameWhere(lines[i+1])
+			if fn == "" {
+				if i+1 < len(lines) {
+					where = frameWhere(lines[i+1])
+				}
+				fn = frameName(l)
+			} else {
+				fn += " < " + frameName(l)
 			}
-			return
+			if strings.Count(fn, " < ") >= 2 {
+				return
+			}
 		}
 	}
 	return
